@@ -175,6 +175,18 @@ def instances(kind, cfg, n_inst, seed):
                 if not err < 1e-6 * (1 + np.linalg.norm(xs)):
                     return 'after 1500 iterations with admissible steps the iterate is %r away from the solution %r (got %r)' % (err, xs, x)
             yield dict(desc, a=a.tolist(), lam=lam), check
+            if kind == 'douglas_rachford_pd':
+                # two operators into ONE range space (temporaries keyed by range): min 1/2 |x - a|^2 + lam/2 |x|_1 + lam/2 |M x|_1 with M = -I has the same solution
+                def solve2(x, niter, cb=None, l1=l1):
+                    S.douglas_rachford_pd(x, half, [0.5 * l1, 0.5 * l1], [I_, -1.0 * I_], niter, tau=1.0, sigma=[1.0, 0.7], callback=cb)
+
+                def check_shared(solve=solve2, x0=x0, xs=xs):
+                    x = x0.copy()
+                    solve(x, 3000)
+                    err = np.linalg.norm(x.asarray() - xs)
+                    if not err < 1e-6 * (1 + np.linalg.norm(xs)):
+                        return 'two operators with the same range: after 3000 iterations with admissible steps the iterate is %r away from the solution %r (got %r)' % (err, xs, x)
+                yield dict(desc, a=a.tolist(), lam=lam, shared_range=True), check_shared
             if kind == 'forward_backward_pd' and t == 0:
                 # saddle problem min_x i_{0}(x): f = 0, g = i_{0} (g* = 0), h = 0, L = I, tau = sigma = 1/2 (admissible: 1/tau - sigma ||L||^2 > 0)
                 X1 = odl.rn(1)
